@@ -222,6 +222,7 @@ def main():
     if a.replay:
         rp, o = native(json.load(open(a.replay))['case']); print(o); sys.exit(1 if rp else 0)
     rep = R.Report('C15', a.tier, seed); timeout = solve.TIMEOUT_MS[a.tier]
+    R.prefetch_native('props.c15_native', ['bounded', str(seed), a.tier])      # the stand-in runs while the obligations are discharged
     u = Under()
     for k in ('_fhw8', '_fhw16', '_fhw32', '_fhw64', 'Model.__call__', 'Value._compute', 'Monobit.__init__', 'Monobit._compute', 'HammingWeight.__init__', 'HammingWeight._compute'):
         rep.function(MOD + '::' + k, u.ld.fn_hash.get(MOD + '::' + k))
